@@ -139,6 +139,22 @@ def run_evaluate(cmds, lt, sq, ver, ap=0, aw=0):
         bscript.encode_varstr = saved
 
 
+def ref_encode_num(n):
+    """CScriptNum serialisation written independently of buidl.op (used by the GENERATORS: a defect in the
+    library's encoder must surface in the cases about the encoder, not stop case generation)"""
+    if n == 0:
+        return b""
+    a, neg, out = abs(n), n < 0, bytearray()
+    while a:
+        out.append(a & 0xFF)
+        a >>= 8
+    if out[-1] & 0x80:
+        out.append(0x80 if neg else 0)
+    elif neg:
+        out[-1] |= 0x80
+    return bytes(out)
+
+
 IMPL = {
     "encode_num": lambda n: bop.encode_num(n),
     "decode_num": lambda e: bop.decode_num(e),
@@ -399,11 +415,11 @@ def rctx(r):
 def rnum_elem(r):
     k = r.random()
     if k < 0.5:
-        return bop.encode_num(r.randrange(-3, 9))
+        return ref_encode_num(r.randrange(-3, 9))
     if k < 0.8:
         return r.choice(ALPHABET)
     if k < 0.9:
-        return bop.encode_num(r.choice([1, -1]) * r.getrandbits(r.randrange(1, 32)))
+        return ref_encode_num(r.choice([1, -1]) * r.getrandbits(r.randrange(1, 32)))
     return bytes(r.getrandbits(8) for _ in range(r.randrange(0, 7)))
 
 
@@ -483,14 +499,14 @@ class ProgGen:
             elif k < 0.44 and depth >= 1:
                 # PICK / ROLL with a sensible index
                 out.append(bop.encode_minimal_num(r.randrange(0, depth + 1)) if r.random() < 0.9
-                           else bop.encode_num(r.choice([-1, depth + 3])))
+                           else ref_encode_num(r.choice([-1, depth + 3])))
                 out.append(r.choice([121, 122]))
                 self.left -= 2
                 budget -= 2
                 depth += 0 if out[-1] == 122 else 1
             elif k < 0.47 and self.timelocks:
                 n = r.choice(OPERANDS)
-                out.append(bop.encode_num(n) if r.random() < 0.8 else bop.encode_num(n) + b"\x00")
+                out.append(ref_encode_num(n) if r.random() < 0.8 else ref_encode_num(n) + b"\x00")
                 out.append(r.choice([177, 178]))
                 if r.random() < 0.8:
                     out.append(117)
@@ -557,9 +573,9 @@ def reuse_cases(ctx):
     h20 = bytes(range(20))
     # programs whose verdict depends on the context, on IF splicing, on the alt stack
     fixed = [
-        [bop.encode_num(500000000), 177], [bop.encode_num(5), 177], [bop.encode_num(5), 178],
-        [bop.encode_num((1 << 22) | 5), 178], [bop.encode_num(1 << 31), 178, 117, 81],
-        [81, 99, bop.encode_num(5), 177, 103, bop.encode_num(5), 178, 104],
+        [ref_encode_num(500000000), 177], [ref_encode_num(5), 177], [ref_encode_num(5), 178],
+        [ref_encode_num((1 << 22) | 5), 178], [ref_encode_num(1 << 31), 178, 117, 81],
+        [81, 99, ref_encode_num(5), 177, 103, ref_encode_num(5), 178, 104],
         [0, 99, 0, 103, 81, 104], [81, 99, 81, 103, 0, 104, 99, 82, 103, 0, 104],
         [81, 100, 0, 103, 81, 99, 83, 104, 104], [81, 107, 82, 108, 147, 83, 135],
         [82, 81, 107, 99, 108, 104], [b"abc", 168, 130, b"\x20", 135], [81, 82, 83, 123, 116, 83, 136, 109, 81],
@@ -599,10 +615,10 @@ def reuse_cases(ctx):
     # ---- op code functions one after the other on one transaction object
     for o in (177, 178):
         for n in OPERANDS:
-            e = bop.encode_num(n)
+            e = ref_encode_num(n)
             items = [[o, [b"\x07", e], []] + list(c) for c in
                      [(r.choice(LOCKTIMES), r.choice(SEQUENCES), r.choice(VERSIONS)) for _ in range(5)]]
-            items.append([o, [bop.encode_num(r.choice(OPERANDS))], []] + items[0][3:])   # same context, another operand
+            items.append([o, [ref_encode_num(r.choice(OPERANDS))], []] + items[0][3:])   # same context, another operand
             ctx.label("reuse/op-sequence-timelock")
             yield ("prop", "op_seq", [items])
     ops = [o for o in PLAIN_OPS if o != 113]
@@ -696,7 +712,7 @@ def generate(ctx):
         d = r.randrange(0, 8)
         st = [rnum_elem(r) for _ in range(d)]
         if o in (121, 122) and st and r.random() < 0.9:
-            st[-1] = bop.encode_num(r.randrange(-1, d + 1))
+            st[-1] = ref_encode_num(r.randrange(-1, d + 1))
         alt = [rnum_elem(r) for _ in range(r.randrange(0, 3))]
         ctx.label("op/deep-sampled")
         yield from both_op(o, st, alt, rctx(r) if o in (177, 178) else CTX0)
@@ -705,12 +721,12 @@ def generate(ctx):
     for o in [139, 140, 143, 144, 145, 146, 147, 148] + list(range(154, 166)):
         for a in nums:
             for b in nums:
-                st = [bop.encode_num(r.choice(nums)), bop.encode_num(a), bop.encode_num(b)]
+                st = [ref_encode_num(r.choice(nums)), ref_encode_num(a), ref_encode_num(b)]
                 ctx.label("op/arith-boundary")
                 yield from both_op(o, st, [])
         for _ in range(ctx.n(20, 400)):
             # non-minimal encodings and negative zero as operands
-            st = [r.choice(ALPHABET), bop.encode_num(r.choice(nums))[:3] + r.choice([b"\x00", b"\x80", b""]),
+            st = [r.choice(ALPHABET), ref_encode_num(r.choice(nums))[:3] + r.choice([b"\x00", b"\x80", b""]),
                   r.choice([b"\x80", b"\x00\x80", b"\x00\x00", b"\x05\x00", b"\x05\x80", b"\x00\x00\x00\x80"])]
             ctx.label("op/arith-nonminimal")
             yield from both_op(o, st, [])
@@ -720,7 +736,7 @@ def generate(ctx):
     sqs = SEQUENCES
     vers = VERSIONS if thorough else [1, 2, 2 ** 32 - 1]
     for n in OPERANDS:
-        e = bop.encode_num(n)
+        e = ref_encode_num(n)
         for lt in lts:
             for sq in ([0, 5, 0xFFFFFFFE, 0xFFFFFFFF, 1 << 31] if not thorough else sqs):
                 ctx.label("timelock/cltv-grid")
@@ -732,7 +748,7 @@ def generate(ctx):
     for _ in range(ctx.n(1500, 40000)):
         o = r.choice([177, 178])
         n = r.choice(OPERANDS) if r.random() < 0.6 else r.randrange(-1, 2 ** 32)
-        e = bop.encode_num(n)
+        e = ref_encode_num(n)
         k = r.random()
         if k < 0.15 and abs(n) < 2 ** 31:
             e = pad_num(n, r.choice([4, 5, 5, 6]))
